@@ -113,6 +113,7 @@ func SearchSessionC12(t *tape.Tape) *core.RunResult {
 	}
 	res.Tracef("polls=%d enumerated=%d", P, len(ns))
 	for _, n := range ns {
+		core.Beat()
 		cc := newCountingCtx(ctx, n)
 		tt := makeTable()
 		var rec *recTT
